@@ -76,6 +76,7 @@ def run(ctx):
     n_src = 12 if ctx.quick else 25
     for ip in range(n_pkg):
         d = ctx.newdir('p')
+        pkg.YESNO = ip          # spelling of the yes/no flags in models.conf (any case)
         n_models = int(rng.choice([1, 3, 8, 20]))
         n_bands = int(rng.integers(1, 7))        # a single-filter fitter is inside the quantifier (>=1 fitted point)
         n_ap = int(rng.integers(2, 9))
